@@ -427,7 +427,19 @@ def run_part(part, P, pid, tier, seed, sdir, only, binaries, gen_path, idx):
             fails.append({"mon": "DRIFT.trace-conn", "id": rj["id"], "fam": rj["fam"], "part": idx,
                           "info": {"what": "the hook-level trace of the scenario is not a behaviour of MC_Conn (Trace_Conn.tla)",
                                    "line": rj["line"], "at": rj["at"], "before": rj["before"]}})
-    return dict(fails=fails, blocks=blocks, nlines=len(lines), vstates=vstates, vtrans=vtrans, nblocks=nblocks, races=len(races), conn=conn)
+    scripts = [l for l in lines if l.get("ev") == "script"]
+    # which actions of MC_Conn the followed schedules made the real code take
+    acts = {}
+    cur = None
+    for l in lines:
+        if l.get("ev") == "scenario":
+            cur = l
+        elif l.get("ev") == "script" and l.get("followed") and cur is not None:
+            for a in cur.get("attempts", []):
+                for st in a.get("script", []) or []:
+                    acts[st] = acts.get(st, 0) + 1
+    return dict(fails=fails, blocks=blocks, nlines=len(lines), vstates=vstates, vtrans=vtrans, nblocks=nblocks, races=len(races), conn=conn,
+                scripts_followed=sum(1 for l in scripts if l.get("followed")), scripts_diverged=sum(1 for l in scripts if not l.get("followed")), script_actions=acts)
 
 
 def run(pid, tier, seed, sdir, replay, t0):
@@ -529,6 +541,9 @@ def run(pid, tier, seed, sdir, replay, t0):
         "model_drift_failures": len(drift),
         "conn_trace_scenarios_validated_against_MC_Conn": sum((r.get("conn") or {}).get("scenarios", 0) for r in results),
         "attempts_replayed_against_Streamer_Step": STATS.get("parser_attempts", 0),
+        "tlc_schedules_followed_to_the_end": sum(r.get("scripts_followed", 0) for r in results),
+        "tlc_schedules_diverged": sum(r.get("scripts_diverged", 0) for r in results),
+        "model_actions_taken_by_the_real_code_in_followed_schedules": merge_counts([r.get("script_actions", {}) for r in results]),
         "conn_trace_lines": sum((r.get("conn") or {}).get("lines", 0) for r in results),
         "conn_trace_rejected": sum(len((r.get("conn") or {}).get("rejected", [])) for r in results),
         "hook_traced_attempts": sum(1 for b in blocks for a in b.get("attempts", []) if isinstance(a, dict) and a.get("hookTrace")),
@@ -544,6 +559,14 @@ def run(pid, tier, seed, sdir, replay, t0):
     print("%s %s: %d scenarios validated, %d monitor failures (%d known), model: %d states; %.0fs" % (
         pid, tier, len(blocks), len(fails), cov["known_finding_instances"], mc_states, time.time() - t0))
     return rc
+
+
+def merge_counts(ds):
+    out = {}
+    for d in ds:
+        for k, v in d.items():
+            out[k] = out.get(k, 0) + v
+    return dict(sorted(out.items()))
 
 
 def has_tx(b):
